@@ -645,6 +645,13 @@ def run_case(desc):
             strata.append('shortcut:' + b.shortcut)
         if node['op'] in ('rscal', 'div', 'rvec'):
             rightish = True
+        if node['op'] == 'pow' and node['n'] >= 3:
+            strata.append('pow:n>=3')
+            if ran_is_space and any(
+                    n['op'] == 'leaf' and n['kind'] in ('partial',
+                                                        'laplacian')
+                    for n in ex.tree_nodes(node)):
+                strata.append('pow:n>=3:stencil')
         if 's' in node:
             strata.append('scalar:' + str(node['s'].get('np')))
             strata.append('scalar-cls:' + node['s'].get('cls', '?'))
@@ -689,7 +696,7 @@ REQUIRED_STRATA = [
     'space:discr', 'dtype:float32', 'weighting:array', 'weighting:const',
     'fk:func', 'inplace', 'linearity-checked', 'alias-inplace',
     'alias-inplace:v*f', 'alias-inplace:lscal(v*f)',
-    'alias-inplace:addvec(v*f)', 'leaf-oop-only', 'sum-oop-only:left',
+    'alias-inplace:addvec(v*f)', 'pow:n>=3:stencil', 'leaf-oop-only', 'sum-oop-only:left',
     'sum-oop-only:right', 'ctor:lscal:rmatmul', 'ctor:rscal:matmul',
     'ctor:rvec:matmul', 'ctor:lvec:rmatmul', 'ctor:flvec:rmatmul',
     'nest:OperatorComp<OperatorRightScalarMult',
